@@ -14,7 +14,7 @@ rsync -a --exclude .git --exclude replays ${VERIF_SRC:-/verif}/ $S/verif/
 grep -rl '/repo' $S/verif/harness $S/verif/check $S/verif/tools 2>/dev/null | xargs sed -i "s#/repo#$S/repo#g"
 rm -f $S/verif/build/vharness
 cd $S/verif
-timeout 1500 ./check $id $tier > $S/out.txt 2>$S/err.txt; rc=$?
+timeout ${TRY_TIMEOUT:-1500} ./check $id $tier > $S/out.txt 2>$S/err.txt; rc=$?
 grep -h "VIOLATION\|KNOWN-FINDING\|quick:\|thorough:" $S/out.txt | cut -c1-220 | head -12
 echo "exit=$rc"
 for f in $(grep -h "^VIOLATION" $S/out.txt | sed 's/.*replay=//; s/ .*//' | head -2); do
